@@ -1140,16 +1140,18 @@ package mocrelay
 
 //@ func NIP11.ServeHTTP
 //@   serves C20
-//@   requires nip11 != nil && r != nil && !has(respHeader(w), "Content-Type") && !has(respHeader(w), "Access-Control-Allow-Origin")
+//@   requires nip11 != nil && r != nil && !has(respHeader(w), "Content-Type") && !has(respHeader(w), "Access-Control-Allow-Origin") && g(wstatus, refof(w)) == 0
 //@   writes ghost(routed, r), ghost(wbytes, w), ghost(wstatus, w), ghost(wtext, w), contents(respHeader(w))
 //@   promises g(routed, r) == 2
-//@   ensures[C20] (old(wantsNIP11(r)) && g(wstatus, refof(w)) == old(g(wstatus, refof(w)))) ==> (g(wbytes, refof(w)) == jsonOf(box(nip11, any)) && hdrGet(respHeader(w), "Content-Type") == "application/nostr+json" && hdrGet(respHeader(w), "Access-Control-Allow-Origin") == "*")
+//@   ensures[C20] (old(wantsNIP11(r)) && g(wstatus, refof(w)) == 0) ==> g(wbytes, refof(w)) == jsonOf(box(nip11, any))
+//@   ensures[C20] (old(wantsNIP11(r)) && g(wstatus, refof(w)) == 0) ==> hdrGet(respHeader(w), "Content-Type") == "application/nostr+json"
+//@   ensures[C20] (old(wantsNIP11(r)) && g(wstatus, refof(w)) == 0) ==> hdrGet(respHeader(w), "Access-Control-Allow-Origin") == "*"
 //@   ensures[C20] !old(wantsNIP11(r)) ==> g(wstatus, refof(w)) == 400
 
 //@ func ServeMux.ServeHTTP
 //@   serves C20
 //@   requires mux != nil && r != nil && mux.Relay != nil
-//@   requires mux.NIP11 != nil ==> (!has(respHeader(w), "Content-Type") && !has(respHeader(w), "Access-Control-Allow-Origin"))
+//@   requires mux.NIP11 != nil ==> (!has(respHeader(w), "Content-Type") && !has(respHeader(w), "Access-Control-Allow-Origin") && g(wstatus, refof(w)) == 0)
 //@   ensures[C20] old(isUpgrade(r)) ==> (g(routed, r) == 1 && g(wtext, refof(w)) == old(g(wtext, refof(w))))
 //@   ensures[C20] (!old(isUpgrade(r)) && old(wantsNIP11(r)) && mux.NIP11 != nil) ==> g(routed, r) == 2
 //@   ensures[C20] (!old(isUpgrade(r)) && old(wantsNIP11(r)) && mux.NIP11 == nil) ==> (g(wtext, refof(w)) == "{}" && g(routed, r) == old(g(routed, r)))
